@@ -239,7 +239,12 @@ func c15Check(c c15Case) error {
 				bad := append([]byte(nil), src...)
 				if f, _, err := walkFrame(bad); err == nil && f.vals.present && len(f.vals.data) > 0 {
 					bad[len(bad)-len(f.vals.data)-1] = 0x7f // unknown block type of the values block
-					if _, err := s.Deserialize(bad, nil); err == nil {
+					var bdst *simdjson.ParsedJson
+					if slot >= 0 {
+						bdst = pool[slot] // the destination of the good call below: whatever the failed call leaves running must not reach it
+						model[slot] = nil
+					}
+					if _, err := s.Deserialize(bad, bdst); err == nil {
 						return fmt.Errorf("%s: Deserialize accepted a blob with an unknown block type", where)
 					}
 				}
